@@ -6,7 +6,7 @@
 //! verifier's combined check becomes visible.
 #![allow(non_snake_case)]
 use crate::curves::CurveTag;
-use crate::drive::{bp_gens, pc_gens};
+use crate::drive::{bp_gens, prog_pc};
 use crate::mirror::{IppMirror, ProofMirror};
 use crate::model::Model;
 use crate::program::{Op, Program, CLABELS, TLABELS, ULABELS};
@@ -74,7 +74,7 @@ pub struct OwnProof<G: AffineRepr> {
 }
 
 pub fn own_prove<G: CurveTag>(prog: &Program, seed: u64, cheat: &Cheat<Fr<G>>) -> OwnProof<G> {
-    let pc = pc_gens::<G>();
+    let pc = prog_pc::<G>(prog);
     let (B, Bb) = (pc.B, pc.B_blinding);
     let mut rng = {
         let mut s = [0u8; 32];
